@@ -69,8 +69,9 @@ impl Transport {
 		}
 		self.position += 1;
 		if let Some((loop_start, loop_end)) = self.loop_region {
-			while self.position >= loop_end {
-				self.position -= loop_end - loop_start;
+			if self.position >= loop_end {
+				// move back by whole loop lengths to the first position before the loop end
+				self.position = loop_start + (self.position - loop_start) % (loop_end - loop_start);
 			}
 		}
 		if self.position >= num_frames {
@@ -83,8 +84,9 @@ impl Transport {
 			return;
 		}
 		if let Some((loop_start, loop_end)) = self.loop_region {
-			while self.position <= loop_start {
-				self.position += loop_end - loop_start;
+			if self.position <= loop_start {
+				// move forward by whole loop lengths to the first position after the loop start
+				self.position = loop_end - (loop_start - self.position) % (loop_end - loop_start);
 			}
 		}
 		if self.position == 0 {
@@ -96,14 +98,16 @@ impl Transport {
 
 	pub fn seek_to(&mut self, mut position: usize, num_frames: usize) {
 		if let Some((loop_start, loop_end)) = self.loop_region {
+			// move by whole loop lengths, as far as the loops
+			// `while position >= loop_end { position -= loop_end - loop_start }` and
+			// `while position < loop_start { position += loop_end - loop_start }` would,
+			// in constant time
 			if position > self.position {
-				while position >= loop_end {
-					position -= loop_end - loop_start;
+				if position >= loop_end {
+					position = loop_start + (position - loop_start) % (loop_end - loop_start);
 				}
-			} else {
-				while position < loop_start {
-					position += loop_end - loop_start;
-				}
+			} else if position < loop_start {
+				position = loop_end - 1 - (loop_start - position - 1) % (loop_end - loop_start);
 			}
 		}
 		self.position = position;
